@@ -182,6 +182,16 @@ func (r *nodeRig) propertyMonitors(id int, label string, i int, s nStep, o nObs,
 		}
 	}
 
+	// ---- C09: a terminal status is never reached without the ending's cleanup: while the transport is still releasing the
+	// channel (the double lingers in CleanupChannel during close steps) no terminal status may be announced for it
+	r.mu.Lock()
+	early := r.earlyTerminal
+	r.earlyTerminal = nil
+	r.mu.Unlock()
+	if len(early) > 0 {
+		fail("C09", "terminal-before-transport-cleanup", "a channel was announced Cancelled / Failed / Completed while the transport was still releasing its resources: the terminal status was reached without waiting for the cleanup")
+	}
+
 	// ---- C02: a channel that was terminal before the step is unchanged, nothing is announced for it
 	for k, b := range before {
 		if !isTerminal(b.Status) {
